@@ -1018,7 +1018,12 @@ class TOTP:
                 raise MalformedTokenError("Token must contain only the digits 0-9")
             token = "%0*d" % (digits, token)
         else:
-            token = to_unicode(token, param="token")
+            try:
+                token = to_unicode(token, param="token")
+            except UnicodeDecodeError:
+                raise MalformedTokenError(
+                    "Token must contain only the digits 0-9"
+                ) from None
             token = _clean_re.sub("", token)
             if not token.isdigit():
                 raise MalformedTokenError("Token must contain only the digits 0-9")
